@@ -69,7 +69,8 @@ func (tr *incTree) write(inc map[string][]string, odd, twice string) error {
 			sb.WriteString("}\n")
 		}
 		// marker items: the order of these in the merged sections is the merge order
-		fmt.Fprintf(&sb, "global {\n  marker: %s\n}\nrouting {\n  pname(%s) -> direct\n}\n", id, id)
+		// (lan_interface is a key that may be given several times: its values accumulate in merge order)
+		fmt.Fprintf(&sb, "global {\n  marker: %s\n  lan_interface: if_%s\n}\nrouting {\n  pname(%s) -> direct\n}\n", id, id, id)
 		if id == twice {
 			// the same section spelled a second time in the same file
 			fmt.Fprintf(&sb, "routing {\n  pname(%s2) -> direct\n}\n", id)
@@ -239,6 +240,13 @@ func TestVerifC17Include(t *testing.T) {
 					if len(r.AndFunctions) > 0 && len(r.AndFunctions[0].Params) > 0 {
 						got = append(got, r.AndFunctions[0].Params[0].Val)
 					}
+				}
+				var wantLan []string
+				for _, f := range v.Order {
+					wantLan = append(wantLan, "if_"+f)
+				}
+				if strings.Join(conf.Global.LanInterface, ",") != strings.Join(wantLan, ",") {
+					res.Failf(key+"|list", repl, "include lists %v: every file gives lan_interface once; the typed configuration holds %v, what is written gives %v (a key that may be repeated accumulates its values in merge order)", v.Inc, conf.Global.LanInterface, wantLan)
 				}
 				if strings.Join(got, ",") != strings.Join(v.Rules, ",") {
 					res.Failf(key+"|rules", repl, "include lists %v (file %q spells routing in two blocks): the typed configuration holds the routing rules %v, what is written gives %v", v.Inc, v.Twice, got, v.Rules)
